@@ -42,6 +42,9 @@ def forms(dim):
     F('laplace', 2, (None, None), [_mul(['inner', gu, gv], ['dx'])], sym=True)
     F('weighted_mass', 2, (None, None), [_mul(['field', 'f'], ['u'], ['v'], ['dx'])], fields={'f': {'shape': [], 'physical': False, 'updatable': True}}, sym=True)
     F('convection', 2, (None, None), [_mul(['inner', ['param', 'b'], gu], ['v'], ['dx']), _mul(['param', 'c'], ['u'], ['v'], ['dx'])], params={'b': [d], 'c': []})
+    # a parameter-only subexpression that occurs twice: the compiler precomputes it into a derived constant
+    kk = ['fn', 'sqrt', ['+', C(1.0), ['inner', ['param', 'b'], ['param', 'b']]]]
+    F('param_derived', 2, (None, None), [_mul(kk, ['inner', ['param', 'b'], gu], ['v'], ['dx']), _mul(kk, ['param', 'c'], ['u'], ['v'], ['dx'])], params={'b': [d], 'c': []})
     F('functional', 1, (None, None), [_mul(['field', 'f'], ['u'], ['dx'])], fields={'f': {'shape': [], 'physical': True, 'updatable': True}})
     F('vector_mass', 2, (2, 2), [_mul(['inner', ['u'], ['v']], ['dx'])], sym=True)
     F('vector_functional', 1, (2, None), [_mul(['inner', ['param', 'p'], ['u']], ['dx'])], params={'p': [2]})
@@ -270,6 +273,9 @@ def run_case(rec, case):
         back = _dense(W.assemble(**{name: args[name]}))
         _close(rec, 'update_vs_fresh', back.reshape(A0.shape), A0, scale, dict(sig, route='Assembler.update back'), c)
     if desc['params']:
+        import re as _re
+        derived = bool(_re.search(r'^\s*constants\[\d+\] = ', Cmp.generate(mkvf()), _re.M))      # constants computed from parameters in precompute_fields
+        sig = dict(sig, derived_constants=derived)
         newp = {n: (rng.uniform(0.5, 1.5, tuple(s)) if s else float(rng.uniform(0.5, 1.5))) for n, s in desc['params'].items()}
         a2 = assemble.instantiate_assembler(mkvf(), kv, dict(args), None, None)
         a2.update_params(**newp)
